@@ -380,6 +380,34 @@ fn long_flat(seed: u64) -> Vec<Candle> {
 	cs
 }
 
+/// class 102: volatile -> 400 candles each making a new high -> one wide reversal bar -> 400 candles each making a new low ->
+/// one wide reversal bar -> volatile (trend counters and extreme-point trackers run far beyond 255 steps without a flip)
+fn long_trend(seed: u64) -> Vec<Candle> {
+	let mut cs = gen::candles(0, seed, 50, 14);
+	let p = cs.last().unwrap().close as f64;
+	let mut top = p;
+	for i in 0..400 {
+		let b = p * (1.0 + 0.004 * i as f64);
+		cs.push(gen::mk(b, b * 1.003, b * 0.999, b * 1.002, 10.0));
+		top = b * 1.002;
+	}
+	let low0 = p * 0.5;
+	cs.push(gen::mk(top, top * 1.001, low0, low0 * 1.01, 25.0));
+	let mut bottom = low0;
+	for i in 0..400 {
+		let b = low0 * (1.0 - 0.002 * i as f64);
+		cs.push(gen::mk(b, b * 1.001, b * 0.997, b * 0.998, 10.0));
+		bottom = b * 0.998;
+	}
+	cs.push(gen::mk(bottom, p * 2.0, bottom * 0.999, p * 1.98, 25.0));
+	let tail = gen::candles(0, seed ^ 0x7A12, 100, 14);
+	let scale = p * 1.98 / tail[0].open as f64;
+	for c in tail {
+		cs.push(gen::mk(c.open as f64 * scale, c.high as f64 * scale, c.low as f64 * scale, c.close as f64 * scale, c.volume as f64));
+	}
+	cs
+}
+
 pub fn run(ctx: &Ctx, r: &mut Report) {
 	if let Some(rp) = &ctx.replay {
 		let c = &rp["case"];
@@ -389,7 +417,7 @@ pub fn run(ctx: &Ctx, r: &mut Report) {
 				let class = c["stream_class"].as_u64().unwrap_or(0) as usize;
 				let seed = c["seed"].as_u64().unwrap_or(0);
 				let n = max_period(&c["config"]);
-				let cs = if class == 101 { long_flat(seed) } else { gen::candles(class, seed, c["len"].as_u64().unwrap_or(600) as usize, n.min(60)) };
+				let cs = if class == 101 { long_flat(seed) } else if class == 102 { long_trend(seed) } else { gen::candles(class, seed, c["len"].as_u64().unwrap_or(600) as usize, n.min(60)) };
 				check_indicator(&d, cfg.as_ref(), &cs, class, seed, r);
 			}
 		}
@@ -410,6 +438,8 @@ pub fn run(ctx: &Ctx, r: &mut Report) {
 				let seed = ctx.seed ^ k << 9;
 				check_indicator(&d, cfg.as_ref(), &long_flat(seed), 101, seed, r);
 				r.cell("stream:10000-candle-flat-stretch");
+				check_indicator(&d, cfg.as_ref(), &long_trend(seed), 102, seed, r);
+				r.cell("stream:400-candle-one-way-trends-with-wide-reversal-bars");
 			}
 			for &class in classes {
 				let reps = if is_watched { ctx.pick(6, 10) } else { 2 };
